@@ -230,6 +230,20 @@ func (s *scope) CreateScope(ctx context.Context) (Scope, error) {
 	}
 	s.rootProvider.scopesMu.Unlock()
 
+	// A child that was closed while it was being created (by an initializer, or through its context) found nothing
+	// to detach in its Close: do not keep it
+	if atomic.LoadInt32(&child.disposed) != 0 {
+		s.childrenMu.Lock()
+		delete(s.children, child)
+		s.childrenMu.Unlock()
+
+		s.rootProvider.scopesMu.Lock()
+		delete(s.rootProvider.scopes, child)
+		s.rootProvider.scopesMu.Unlock()
+
+		return nil, ErrScopeDisposed
+	}
+
 	// Auto-close on context cancellation
 	go func() {
 		<-ctx.Done()
